@@ -403,6 +403,22 @@ def auto_shapes(ctx, W, B):
         host = rng.choice(hosts)
         v, exp = auto_obj(ctx, W, rng, host, 3, pools)
         check_value(ctx, W, B, host, v, 'auto-shape', expect_auto=exp)
+    # contents SHORTER than a constructor id that are the leading bytes of a registered id whose remaining bytes are zero
+    # (ids below 2^24 / 2^16 exist in the bundled schemas): fewer than 4 bytes can never be an object - they stay bytes
+    short = []
+    for c in W.ctors:
+        le = c['id'].to_bytes(4, 'little')
+        for k in (3, 2, 1):
+            if le[k:] == bytes(4 - k) and any(le[:k]):
+                short.append(le[:k])
+    short = sorted(set(short))
+    ctx.count('short_id_prefixes', len(short))
+    for pre in short[:ctx.n(12, 60)] + [b'', b'\x00', b'\x00\x00\x00']:
+        for host in rng.sample(hosts, min(3, len(hosts))):
+            v = V.gen_obj(W, rng, host, 0, {'depth': 1, 'big': False})
+            a = rng.choice([a for a in host['args'] if a['ety'] == ('base', 'bytes') and not a['vec'] and a['cond'] is None])
+            v[a['field']] = pre
+            check_value(ctx, W, B, host, v, 'bytes-shorter-than-an-id')
     # strings: ids whose four little-endian bytes are ASCII letters/digits
     ascii_ids = [c['id'].to_bytes(4, 'little') for c in W.ctors if all(0x20 <= x < 0x7f for x in c['id'].to_bytes(4, 'little'))]
     shosts = [c for c in W.ctors if W.fully_typed(c) and W.canonical(c) and
